@@ -13,7 +13,7 @@ INTERP = "vt"
 SHARD = 300
 RULE = ("to_condensed/to_squared: every (n,i,j) for n <= 12 (quick) / 40 (thorough) scalar and array forms, every k "
         "for those n, plus row starts/ends and random k for n up to 10^7 where a mis-rounded float sqrt could change "
-        "the truncation; pdist/cdist 1-D metrics on integer-valued inputs of length 0..7 with repeated values; "
+        "the truncation; pdist/cdist 1-D metrics on integer-valued inputs (float and int dtype) of length 0..7 with repeated values; "
         "propagate_constraints on every (cannot-link, must-link) graph with <=2+<=2 edges on 4 vertices (quick) and "
         "<=3+<=3 (thorough) plus random graphs on 6 vertices; l2_normalize tolerance check on random matrices "
         "with zero rows; non-trivial = n >= 4 / length >= 3 / both constraint lists non-empty")
@@ -47,9 +47,10 @@ def generate(rng, tier):
         for ln in range(0, 8):
             for _ in range(6 if tier == "thorough" else 3):
                 xs = [rng.randrange(-4, 5) for _ in range(ln)]
-                cases.append({"k": "pdist", "m": m, "xs": xs})
+                dt = rng.choice(["float", "int"])      # integer arrays too: the result must not inherit the input dtype
+                cases.append({"k": "pdist", "m": m, "xs": xs, "dtype": dt})
                 ys = [rng.randrange(-4, 5) for _ in range(rng.randrange(0, 6))]
-                cases.append({"k": "cdist", "m": m, "xs": xs, "ys": ys})
+                cases.append({"k": "cdist", "m": m, "xs": xs, "ys": ys, "dtype": dt})
     verts = range(4)
     allp = [(u, v) for u in verts for v in verts if u < v]
     kmax = 3 if tier == "thorough" else 2
@@ -110,8 +111,9 @@ def run(case):
         return {"obs": [[int(a), int(b)] for a, b in zip(np.atleast_1d(i), np.atleast_1d(j))],
                 "scalar": [[int(a), int(b)] for a, b in sc]}
     mult = {"equal": 1, "minimum": 1, "maximum": 1, "average": 2}
+    dt = float if case.get("dtype", "float") == "float" else int
     if k == "pdist":
-        x = np.array(case["xs"], dtype=float)
+        x = np.array(case["xs"], dtype=dt)
         r = d.pdist(x, metric=case["m"])
         cd = d.cdist(x, x, metric=case["m"]) if len(x) else np.zeros((0, 0))
         f = mult[case["m"]]
@@ -119,8 +121,8 @@ def run(case):
         return {"obs": [conv(v) for v in np.asarray(r).tolist()],
                 "cd": [[conv(v) for v in row] for row in np.asarray(cd).tolist()]}
     if k == "cdist":
-        x = np.array(case["xs"], dtype=float)
-        y = np.array(case["ys"], dtype=float)
+        x = np.array(case["xs"], dtype=dt)
+        y = np.array(case["ys"], dtype=dt)
         f = mult[case["m"]]
         if len(x) == 0:
             return {"obs": []}
